@@ -463,6 +463,8 @@ Inductive c15case :=
 | C15Det (runs : list (list N))                  (* repeated / re-loaded / after prefix / fresh process *)
 | C15Sum (before after : list N) (i dup n : nat)  (* checksums before and after editing record i;
                                                      record n is a copy of record dup *)
+| C15Order (kids : list (list bytes))            (* per object declaration of a validated schema: the fqdns of
+                                                     its children in evaluation order *)
 | C15Flat (t : tree)                             (* a raw record of a flat format *)
 | C15Canon (t : tree) (observed : jv).           (* a raw record and idr.J2NodeToInterface(n, true) of it,
                                                      keys sorted as json.Marshal does *)
@@ -475,12 +477,21 @@ Fixpoint differ_exactly_at (i : nat) (a b : list N) : bool :=
   | _, _, _ => false
   end.
 
+(* Go's < on strings (bytewise), strict *)
+Definition bytes_ltb (a b : bytes) : bool := bytes_leb a b && negb (bytes_eqb a b).
+Fixpoint strictly_sorted (l : list bytes) : bool :=
+  match l with
+  | x :: ((y :: _) as r) => bytes_ltb x y && strictly_sorted r
+  | _ => true
+  end.
+
 Definition check_c15 (c : c15case) : bool :=
   match c with
   | C15Det runs => all_equal runs && (1 <? length runs)
   | C15Sum before after i dup n =>
       (i <? n) && differ_exactly_at i before after
       && N.eqb (nth dup before 0%N) (nth n before 1%N)
+  | C15Order kids => forallb strictly_sorted kids
   | C15Flat t => is_flat_rec t
   | C15Canon t observed => jv_eqb (jv_norm (j2 t)) observed
   end.
